@@ -636,3 +636,92 @@ def plan_connections_arg_sets():
                         locked = {("a", "signal-A"): "green"} if node_lock else {}
                         out.append({"self": cp, "signal_graph": g, "entities": plan.entity_placements, "wire_merge_junctions": {}, "locked_colors": locked, "merge_membership": {}})
     return out
+
+
+# =================================================================================================
+# ConnectionPlanner._expand_merge_edges (C02 / C12: a wire merge is wiring, not an entity): an edge whose source is a merge junction becomes one
+# edge per LEAF member of that merge — nested merges flattened, members in order — from the member's PHYSICAL producer (resolved through the
+# signal graph) to the same sink under the same signal, remembering the merge it came from; an edge INTO a junction disappears (the junction has
+# no connector); every other edge is kept as it is.  Evaluated on the REAL method over an enumerated box: bounded.
+# =================================================================================================
+EMQ = "dsl_compiler/src/layout/connection_planner.py::ConnectionPlanner._expand_merge_edges"
+
+
+def _expand_post(a, res):
+    sc = a.self._scenario
+    want = []
+    for (sig, s, t) in sc["edges"]:
+        if t in sc["junctions"]:
+            continue
+        if s not in sc["junctions"]:
+            want.append((sig, s, t, None))
+            continue
+        for leaf in sc["leaves"][s]:
+            want.append((sig, sc["physical"].get(leaf, leaf), t, s))
+    got = [(e.logical_signal_id, e.source_entity_id, e.sink_entity_id, e.originating_merge_id) for e in res]
+    return got == want and all(e.resolved_signal_name == "resolved-" + e.logical_signal_id for e in res)
+
+
+expand_merges = Contract(qualname=EMQ, params={"self": ty.TOpaque("planner"), "edges": ty.TOpaque("edges"), "wire_merge_junctions": ty.TOpaque("junctions"), "entities": ty.TOpaque("entities"),
+                                               "signal_graph": ty.TOpaque("graph")},
+                         ensures=[("merge-sourced edges become one edge per leaf member (nested merges flattened, physical producers, merge remembered); edges into a junction vanish; "
+                                   "all others are kept", _expand_post)],
+                         verify=False, properties=("C02", "C12"), note="evaluated on the real method over an enumerated box (bounded stand-in)")
+CONTRACTS.append(expand_merges)
+
+
+def expand_merges_arg_sets():
+    from dsl_compiler.src.ir.nodes import BundleRef, SignalRef
+    from dsl_compiler.src.layout.connection_planner import ConnectionPlanner
+    from dsl_compiler.src.layout.signal_graph import SignalGraph
+    from dsl_compiler.src.layout.wire_router import CircuitEdge
+
+    class _Diag:
+        def info(self, *a, **k):
+            pass
+        warning = error = info
+
+    class _P:
+        def __init__(self, t):
+            self.entity_type = t
+
+    out = []
+    shapes = {
+        "flat": {"m1": ["a", "b"]},
+        "nested": {"m1": ["a", "b"], "m2": ["m1", "c"]},
+        "nested-twice": {"m1": ["a", "b"], "m2": ["m1", "m1", "c"]},
+        "bundle-member": {"m1": ["a", "B:b"]},
+        "none": {},
+    }
+    for shape, merges in shapes.items():
+        def leaves_of(m, seen):
+            r = []
+            for x in merges[m]:
+                x = x.split(":")[-1]
+                if x in merges:
+                    if x not in seen:
+                        seen.add(x)
+                        r += leaves_of(x, seen)
+                else:
+                    r.append(x)
+            return r
+        leaves = {m: leaves_of(m, {m}) for m in merges}
+        junctions = {m: {"inputs": [(BundleRef({"signal-A"}, x[2:]) if x.startswith("B:") else SignalRef("signal-A", x)) for x in members], "output_id": m} for m, members in merges.items()}
+        for resolve in (False, True):
+            physical = {"a": "entity_a"} if resolve else {}
+            top = list(merges)[-1] if merges else "a"
+            edge_sets = [[("s1", top, "sink")], [("s1", top, "sink"), ("s2", "c", "sink2")], [("s1", "a", top if merges else "sink"), ("s1", top, "sink")],
+                         [("s1", top, "sink"), ("s1", top, "sink2")]]
+            if "m1" in merges and top != "m1":
+                edge_sets.append([("s1", "m1", "sink"), ("s2", top, "sink")])
+            for es in edge_sets:
+                g = SignalGraph()
+                for k, v in physical.items():
+                    g.set_source(k, v)
+                cp = object.__new__(ConnectionPlanner)
+                cp.diagnostics = _Diag()
+                cp._scenario = {"edges": es, "junctions": set(merges), "leaves": leaves, "physical": physical}
+                edges = [CircuitEdge(logical_signal_id=sig, resolved_signal_name="resolved-" + sig, source_entity_id=s, sink_entity_id=t) for (sig, s, t) in es]
+                ents = {n: _P("constant-combinator") for n in ("a", "b", "c", "entity_a", "sink", "sink2")}
+                out.append({"self": cp, "edges": edges, "wire_merge_junctions": junctions or None, "entities": ents, "signal_graph": g})
+    return out
